@@ -22,6 +22,7 @@ Norm(pty, x) == IF pty = "dt" THEN LET y == WallOf(x.n, x.secs, x.frac, x.off) I
 Got(pty, res, expected) == "ok" \in DOMAIN res /\ Norm(pty, res.ok) = expected
 \* the parsed type has no field the formatted type lacks
 Narrower(ty, pty) == pty = ty \/ (ty = "dt" /\ pty \in {"ndt", "date", "time"}) \/ (ty = "ndt" /\ pty \in {"date", "time"})
+TailSafe(r) == ~(r[Len(r)].k = "Fix" /\ r[Len(r)].f \in {"TimezoneOffsetPermissive", "TimezoneName"})
 PertModes == {"upper", "lower", "alt", "asis"}
 \* e.ty: the formatted type; e.pty0: the type the format is meant to be read as (the formatted type, or a narrower one
 \* for a format that prints more than it reads back, e.g. %Z); e.parsed: the results for pty0 and every narrower type
@@ -38,6 +39,9 @@ RoundTrip(e) ==
                /\ Got(q.pty, q.r, Project(w, r, v, q.pty))
                /\ Got(q.pty, q.rem, Project(w, r, v, q.pty)) /\ q.rem.rest = 0
                /\ Got(q.pty, q.owned, Project(w, r, v, q.pty))              \* the route through owned items agrees
+               \* "|tail" appended: same value and the tail is the remainder - unless the format ends in an item that may read on
+               \* (%Z takes every non-blank character, %#z looks for optional minutes); parse_from_str refuses trailing text
+               /\ (TailSafe(r) => Got(q.pty, q.rem2, Project(w, r, v, q.pty)) /\ q.rem2.rest = 5 /\ q.trailing_refused)
    /\ \A k \in 1..Len(e.perts) :
          LET q == e.perts[k] IN
          /\ q.mode \in PertModes /\ AllWhite(q.ws)
